@@ -29,4 +29,6 @@ extern struct op_entry ops_bits[];
 void bits_reset(void);
 extern struct op_entry ops_template[];
 void template_reset(void);
+extern struct op_entry ops_ieee[];
+void ieee_reset(void);
 #endif
